@@ -9,6 +9,8 @@ import Ctrmml.Proofs.MdsFile
 import Ctrmml.Proofs.MdsTop
 import Ctrmml.Properties.C13
 import Ctrmml.Spec.MdsResolve
+import Ctrmml.Proofs.MdsReadParse
+import Ctrmml.Proofs.MdsReadOps
 namespace Ctrmml.MdsFile
 open Ctrmml Ctrmml.Mds Tables
 
@@ -509,6 +511,456 @@ theorem C09_event_names {song : Song} {d : DataInfo} (hpc : PlatformClean d) {n 
     · rw [h1] at t; exact absurd t (by decide)
     · rcases t with t | t <;> (rw [h1] at t; exact absurd t (by decide))
     · rw [h1] at t; exact absurd t (by decide)
+
+/-! ## round 3: the reader side — `Spec/MdsResolve` on the bytes -/
+
+/-- `reader_sees_operands` (partial: the fragment `MdsRead.Frag` — every event has a defined
+encoding (`okEv`: loop point, rests / ties / notes of any 16-bit length, every command of
+`convert_track`'s switch including subroutine calls, drum mode, `DMFINISH`, counted loops with
+breaks, the loop-back jump), the list ends with its only terminator, loops are balanced — and a
+stream shorter than 64 KiB).  Wherever the stream lies in a chunk, the reader-side decoder of
+`Spec/MdsResolve` (instruction boundaries by `SeqWf.instrLen`) walks it instruction by instruction
+to exactly its end and returns exactly `opsOf`: one reading per byte-emitting event.  Every
+decoded `PAT`/`INS`/`PCM`/`PEG`/`MTAB` operand is the operand byte `convert_track` computed from
+an event of the list (index offset by the number of subroutines / macro tracks, cut to a byte),
+and every such event is decoded. -/
+theorem C09_reader_sees_operands_partial (nS nM : Nat) (es : List MEv) (hfr : MdsRead.Frag es) {bytes : List Nat}
+    (h : convertTrackChk nS nM es = .ok bytes) (hlen : bytes.length < 65536)
+    (seq : List Nat) (pos : Nat) (hat : MdsRead.At seq pos bytes) (drum : Bool) (fuel : Nat) (hf : fuel ≥ bytes.length + 1) :
+    MdsResolve.decodeStream seq fuel pos drum [] = some (MdsRead.opsOf nS nM es drum, pos + bytes.length) ∧
+    (∀ o ∈ MdsRead.opsOf nS nM es drum, ∃ ev ∈ es,
+      (o = .pat (ev.arg % 256) ∧ ev.type = mds_PAT) ∨
+      (o = .ins ((nS + nM + ev.arg) % 256) ∧ ev.type = mds_INS) ∨
+      (o = .pcm ((nS + nM + ev.arg) % 256) ∧ ev.type = mds_PCM) ∨
+      (o = .peg (if ev.arg ≠ 0 then (nS + nM + ev.arg) % 256 else 0) ∧ ev.type = mds_PEG) ∨
+      (o = .mtab (if ev.arg ≠ 0 then (ev.arg + nS) % 256 else 0) ∧ ev.type = mds_MTAB) ∨
+      (ev.type = mds_DMFINISH ∧ o = .dmfinish (ev.arg % 256)) ∨
+      (mds_NOTE ≤ ev.type ∧ ev.type < mds_SLR ∧ ev.arg ≠ 0 ∧ (o = .drumNote (ev.type - mds_NOTE) ∨ o = .note (ev.type - mds_NOTE)))) ∧
+    (∀ ev ∈ es,
+      (ev.type = mds_PAT → MdsResolve.Op.pat (ev.arg % 256) ∈ MdsRead.opsOf nS nM es drum) ∧
+      (ev.type = mds_INS → MdsResolve.Op.ins ((nS + nM + ev.arg) % 256) ∈ MdsRead.opsOf nS nM es drum) ∧
+      (ev.type = mds_PCM → MdsResolve.Op.pcm ((nS + nM + ev.arg) % 256) ∈ MdsRead.opsOf nS nM es drum) ∧
+      (ev.type = mds_PEG → MdsResolve.Op.peg (if ev.arg ≠ 0 then (nS + nM + ev.arg) % 256 else 0) ∈ MdsRead.opsOf nS nM es drum) ∧
+      (ev.type = mds_MTAB → MdsResolve.Op.mtab (if ev.arg ≠ 0 then (ev.arg + nS) % 256 else 0) ∈ MdsRead.opsOf nS nM es drum)) := by
+  obtain ⟨body, t, rfl, hb, ht, hbal⟩ := hfr
+  obtain ⟨pre, post, rfl, rfl⟩ := hat
+  refine ⟨MdsRead.decode_convertTrack nS nM body t hb ht hbal (convertTrackChk_fits h).2 hlen pre post drum fuel hf,
+    fun o ho => MdsRead.mem_opsOf ho, fun ev hev => MdsRead.opsOf_records hev drum⟩
+
+/-- a track with a call, an instrument, a counted loop with a break (back-patched into the
+middle of the stream) and a length-less note in front of the break position -/
+def exFrag : List MEv :=
+  [⟨mds_PAT, 0⟩, ⟨mds_INS, 0⟩, ⟨mds_LP, 0⟩, ⟨mds_NOTE + 36, 24⟩, ⟨mds_NOTE + 38, 24⟩, ⟨mds_LPB, 0⟩, ⟨mds_REST, 3⟩, ⟨mds_LPF, 2⟩,
+   ⟨mds_FINISH, 0⟩]
+
+example : MdsRead.Frag exFrag ∧ (convertTrackChk 1 0 exFrag).toOption = some [254, 0, 225, 1, 250, 166, 23, 168, 252, 3, 2, 251, 2, 255] ∧
+    MdsRead.opsOf 1 0 exFrag false = [.pat 0, .ins 1, .note 36, .note 38] ∧
+    MdsResolve.decodeStream ([9, 9] ++ [254, 0, 225, 1, 250, 166, 23, 168, 252, 3, 2, 251, 2, 255] ++ [7]) 15 2 false [] =
+      some ([.pat 0, .ins 1, .note 36, .note 38], 16) :=
+  ⟨⟨exFrag.dropLast, ⟨mds_FINISH, 0⟩, by decide, by decide, by decide, by decide⟩, by decide, by decide, by decide⟩
+
+/-- position of channel track `i`'s stream in the exported `seq ` -/
+def trackPos (b : Built) (i : Nat) : Nat := hdrSize b.conv b.trackList.length + ((b.trackStreams.take i).flatten).length
+
+/-- data slot `k` resolves, through the reader-side `resolve`, to the content of THE `dblk` entry
+with id `k`, which holds the data-bank item registered under a key of `used_data_map`; the slot
+itself is zero -/
+def DataRes (b : Built) (bank : List (List Nat)) (mf : MdsResolve.MdsFile) (hd : MdsResolve.Header) (k : Nat) : Prop :=
+  ∃ mapped dat, b.conv.subList.length + b.conv.macroList.length ≤ k ∧
+    (mapped, k - (b.conv.subList.length + b.conv.macroList.length)) ∈ b.conv.usedData ∧
+    bank[mapped % (mdsFile_bankMask + 1)]? = some dat ∧
+    MdsResolve.entriesWith mf k = [MdsRead.entryOfP b.conv.subList.length b.conv.macroList.length mapped
+      (k - (b.conv.subList.length + b.conv.macroList.length)) dat] ∧
+    MdsResolve.resolve mf hd (.data k) = some (MdsResolve.nat (toU8 dat)) ∧ Seq.rd16 mf.seq (hd.base + 2 * k) = some 0
+
+/-- what "the operand resolves to the entry the song named" means for a decoded operand -/
+def Resolves (song : Song) (d : DataInfo) (b : Built) (bank : List (List Nat)) (mf : MdsResolve.MdsFile) (hd : MdsResolve.Header) :
+    MdsResolve.Op → Prop
+  | .pat k => ∃ key evs stream rest, (key, k) ∈ b.conv.subMap ∧ b.conv.subList[k]? = some evs ∧ SubNamed song d key evs ∧
+      convertTrackChk b.conv.subList.length b.conv.macroList.length evs = .ok stream ∧
+      MdsResolve.resolve mf hd (.stream k) = some (stream ++ rest)
+  | .mtab k => k = 0 ∨ ∃ key evs stream, (key, k - 1 - b.conv.subList.length) ∈ b.conv.macroMap ∧
+      b.conv.macroList[k - 1 - b.conv.subList.length]? = some evs ∧ MacNamed song d key evs ∧ convertMacroTrack evs = .ok stream ∧
+      (stream ≠ [] → ∃ rest, MdsResolve.resolve mf hd (.stream (k - 1)) = some (stream ++ rest))
+  | .ins k => DataRes b bank mf hd k
+  | .pcm k => DataRes b bank mf hd k
+  | .peg k => k = 0 ∨ DataRes b bank mf hd (k - 1)
+  | _ => True
+
+theorem entryId_mod {nS nM m e : Nat} (h : nS + nM + e < 2147483648) : entryId nS nM m e % 2147483648 = nS + nM + e := by
+  unfold entryId
+  have : mdsFile_extIdBit = 2147483648 := rfl
+  rw [this]
+  split <;> omega
+
+theorem range_getD (l : List Nat) (hl : ∀ x ∈ l, x < 256) : (List.range l.length).map (fun i => l[i]?.getD 0 % 256) = l := by
+  apply List.ext_getElem (by simp)
+  intro i h1 h2
+  have hi : i < l.length := h2
+  simp only [List.getElem_map, List.getElem_range, List.getElem?_eq_getElem hi, Option.getD_some]
+  exact Nat.mod_eq_of_lt (hl _ (List.getElem_mem hi))
+
+/-- the exported `seq ` consists of bytes when the channel-track and subroutine lists are in the
+fragment and their streams are shorter than 64 KiB (header and macro streams: always) -/
+theorem C09_seq_bytes {c : Conv} {tl : List (Nat × List MEv)} {vol : Option String} {b : Built} (h : assemble c tl vol = .ok b)
+    (hfr : ∀ l ∈ tl.map (·.2) ++ c.subList, MdsRead.Frag l) (hlen : ∀ s ∈ b.trackStreams ++ b.subStreams, s.length < 65536) :
+    ∀ x ∈ b.seq, x < 256 := by
+  obtain ⟨ts, ss, ms, hts, hss, hms, _, _, _, hbt, hbs, _, hseq⟩ := assemble_ok h
+  have hstream : ∀ (es : List (List MEv)) (pos : Nat) (bs : List (List Nat)),
+      encodeStreams (convertTrackChk c.subList.length c.macroList.length) (4 + 4 * tl.length) pos es = .ok bs →
+      (∀ l ∈ es, MdsRead.Frag l) → (∀ s ∈ bs, s.length < 65536) → ∀ x ∈ bs.flatten, x < 256 := by
+    intro es pos bs he hf hl x hx
+    obtain ⟨s, hs, hxs⟩ := List.mem_flatten.mp hx
+    obtain ⟨l, hlm, hc⟩ := MdsRead.encodeStreams_mem _ _ _ _ _ he s hs
+    obtain ⟨body, t, rfl, hb, ht, _⟩ := hf l hlm
+    refine MdsRead.convertTrack_bytes _ _ _ ?_ (convertTrackChk_fits hc).2 (hl s hs) x hxs
+    intro ev hev
+    rcases List.mem_append.mp hev with hev | hev
+    · exact (hb ev hev).1
+    · simp only [List.mem_singleton] at hev; subst hev; exact ht.1
+  rw [hseq]
+  refine MdsRead.app_bytes (MdsRead.app_bytes (MdsRead.app_bytes (MdsRead.headerOf_bytes _ _ _ _ _ _ _) ?_) ?_) ?_
+  · exact hstream _ _ _ hts (fun l hl => hfr l (List.mem_append_left _ hl)) (fun s hs => hlen s (List.mem_append_left _ (hbt ▸ hs)))
+  · exact hstream _ _ _ hss (fun l hl => hfr l (List.mem_append_right _ hl)) (fun s hs => hlen s (List.mem_append_right _ (hbs ▸ hs)))
+  · intro x hx
+    obtain ⟨s, hs, hxs⟩ := List.mem_flatten.mp hx
+    obtain ⟨l, _, hc⟩ := MdsRead.encodeStreams_mem _ _ _ _ _ hms s hs
+    exact MdsRead.convertMacroTrack_bytes hc x hxs
+
+/-- **`full` (partial)**: the property THROUGH the reader-side definitions on the serialised file.
+For an export `construct … = b`, `get_mds … = f`: `parseFile f` (RIFF walk + shape) gives the
+container with `seq = b.seq` and the `dblk` entries of `used_data_map`, ids pairwise distinct and
+inside the data part of the slot space; `headerOf` reads base, `|subs|+|macros|+|data|` slots and
+the channel tracks of the song at the positions of their streams; `decodeStream` — the decoder
+`checkFile` uses — started at each channel track and at the `streamPos` of each subroutine slot
+walks the stream and returns exactly the operands of the emitted events (`opsOf`); and every
+`PAT`/`INS`/`PCM`/`PEG`/`MTAB` operand so decoded `Resolves`: through `MdsResolve.resolve` to the
+stream of the subroutine / macro track registered under the key the writer used, resp. to the
+content of the one `dblk` entry holding the data-bank item of the `used_data_map` key.
+
+Residual hypotheses (everything else is `C09_full_statement`): `hfr`/`hlen` — every channel and
+subroutine event list is in the fragment `Frag`, streams shorter than 64 KiB (then the model's `seq`
+holds bytes: `C09_seq_bytes`); `hsmall` — the file is below 4 GiB; `hs` — the track map is sorted (a
+`std::map`); `hn` — at least one channel track; macro streams resolve when non-empty.  Not covered:
+`checkFile`'s comparison with the SONG's events (`namedOf`, `matchAll`: which id each operand
+must name is proved per hook call by `C09_event_names`), drum-note operands, `contiguous`. -/
+theorem C09_full_partial {song : Song} {d : DataInfo} (hpc : PlatformClean d) {vol : Option String} {b : Built}
+    (h : construct song d vol = .ok b) {bank : List (List Nat)} {group pcm f : Bytes} (hg : getMds b bank group pcm = .ok f)
+    (hs : (song.tracks.map (·.1)).Pairwise (· < ·)) (hn : 0 < b.trackList.length)
+    (hsmall : ∀ ts, (mdsTree (toU8 b.seq) group pcm ts).small)
+    (hfr : ∀ l ∈ b.trackList.map (·.2) ++ b.conv.subList, MdsRead.Frag l)
+    (hlen : ∀ s ∈ b.trackStreams ++ b.subStreams, s.length < 65536) :
+    ∃ mf hd, MdsResolve.parseFile f = .ok mf ∧ mf.seq = b.seq ∧ mf.group = MdsResolve.nat group ∧
+      mf.version = [MDSDRV_SEQ_VERSION_MAJOR, MDSDRV_SEQ_VERSION_MINOR] ∧
+      MdsResolve.headerOf mf.seq = some hd ∧ hd.base = 4 + 4 * b.trackList.length ∧ hd.volume = volByte vol ∧
+      hd.slots = b.conv.subList.length + b.conv.macroList.length + b.conv.usedData.length ∧
+      hd.tracks.map (·.1) = channelIds song ∧ hd.tracks.map (·.2) = (List.range b.trackList.length).map (trackPos b) ∧
+      (mf.entries.map (·.id)).Nodup ∧
+      (∀ e ∈ mf.entries, b.conv.subList.length + b.conv.macroList.length ≤ e.id ∧ e.id < hd.slots) ∧
+      (∀ (i : Nat) (hi : i < b.trackList.length), ∃ stop,
+        MdsResolve.decodeStream mf.seq (mf.seq.length + 1) (trackPos b i) false [] =
+          some (MdsRead.opsOf b.conv.subList.length b.conv.macroList.length b.trackList[i].2 false, stop)) ∧
+      (∀ (k : Nat) (hk : k < b.conv.subList.length) (drum : Bool), ∃ p stop, MdsResolve.streamPos mf hd k = some p ∧
+        MdsResolve.decodeStream mf.seq (mf.seq.length + 1) p drum [] =
+          some (MdsRead.opsOf b.conv.subList.length b.conv.macroList.length b.conv.subList[k] drum, stop)) ∧
+      (∀ l ∈ b.trackList.map (·.2) ++ b.conv.subList, ∀ (drum : Bool),
+        ∀ o ∈ MdsRead.opsOf b.conv.subList.length b.conv.macroList.length l drum, Resolves song d b bank mf hd o) := by
+  obtain ⟨hinv, hids, hasm⟩ := construct_inv hpc h
+  have hbyte : ∀ x ∈ b.seq, x < 256 := C09_seq_bytes hasm hfr hlen
+  obtain ⟨hsz, hseqlen, r0, r2, r3, htr, hsub, hmac, hdat⟩ := MdsRead.layout hasm
+  obtain ⟨ts, hts, _, _, _⟩ := getMds_serialize hg
+  obtain ⟨_, hidmap⟩ := MdsRead.mapM_parse _ _ _ _ _ hts
+  have hparse := MdsRead.parseFile_getMds hg hsmall hbyte
+  have htx := C09_tracks_exact h
+  have hn16 : b.trackList.length ≤ 16 := (htx.2.2 hs).2
+  have hidlt : ∀ x ∈ b.trackList.map (·.1), x < 256 := by
+    intro x hx; rw [htx.1] at hx; have := (htx.2.1 x hx).1; omega
+  unfold hdrSize at hsz hseqlen
+  have hsz' : 4 + 4 * b.trackList.length + (b.conv.subList.length + b.conv.macroList.length + b.conv.usedData.length) * 2 < 65536 := hsz
+  have hseqlen' : 4 + 4 * b.trackList.length + (b.conv.subList.length + b.conv.macroList.length + b.conv.usedData.length) * 2 ≤ b.seq.length := hseqlen
+  have htp0 : trackPos b 0 = 4 + 4 * b.trackList.length + 2 * (b.conv.subList.length + b.conv.macroList.length + b.conv.usedData.length) := by
+    simp [trackPos, hdrSize]; omega
+  have htpi : ∀ i, trackPos b i = 4 + 4 * b.trackList.length + (b.conv.subList.length + b.conv.macroList.length + b.conv.usedData.length) * 2 + ((b.trackStreams.take i).flatten).length := by
+    intro i; simp [trackPos, hdrSize]
+  obtain ⟨mf, hmf⟩ : ∃ mf : MdsResolve.MdsFile, mf = (⟨[MDSDRV_SEQ_VERSION_MAJOR, MDSDRV_SEQ_VERSION_MINOR],
+      MdsResolve.nat group, b.seq, MdsRead.entriesOf b.conv.subList.length b.conv.macroList.length bank (usedSorted b.conv), MdsResolve.nat pcm⟩ : MdsResolve.MdsFile) := ⟨_, rfl⟩
+  rw [← hmf] at hparse
+  have hmseq : mf.seq = b.seq := by rw [hmf]
+  have hment : mf.entries = MdsRead.entriesOf b.conv.subList.length b.conv.macroList.length bank (usedSorted b.conv) := by rw [hmf]
+  obtain ⟨hd, hhd⟩ : ∃ hd : MdsResolve.Header, hd = (⟨4 + 4 * b.trackList.length, volByte vol,
+      (List.range b.trackList.length).map (fun i => ((b.trackList.map (·.1))[i]?.getD 0 % 256, trackPos b i)), b.conv.subList.length + b.conv.macroList.length + b.conv.usedData.length⟩ : MdsResolve.Header) := ⟨_, rfl⟩
+  have hbase : hd.base = 4 + 4 * b.trackList.length := by rw [hhd]
+  have hslots : hd.slots = b.conv.subList.length + b.conv.macroList.length + b.conv.usedData.length := by rw [hhd]
+  have hheader : MdsResolve.headerOf mf.seq = some hd := by
+    rw [hmseq, hhd]
+    refine MdsRead.headerOf_of_reads b.seq b.trackList.length (volByte vol) (b.conv.subList.length + b.conv.macroList.length + b.conv.usedData.length) _ (trackPos b) hn (by omega) r0 r2
+      (by rw [r3, Nat.mod_eq_of_lt (by omega)]) ?_ htp0 (by omega)
+    intro i hi
+    obtain ⟨off, stream, q1, q2, _, _, _, q6⟩ := htr i hi
+    refine ⟨off, ?_, q2, ?_⟩
+    · rw [q1]; simp [List.getElem?_map, List.getElem?_eq_getElem (show i < b.trackList.length by omega)]
+    · rw [q6, htpi]; simp [hdrSize]
+  have hperm : (usedSorted b.conv).Perm b.conv.usedData := List.mergeSort_perm _ _
+  have hnd : (mf.entries.map (·.id)).Nodup := by
+    rw [hment, hidmap]; exact C09_ids_injective hpc h
+  -- an entry of the parsed list
+  have hentry : ∀ e ∈ mf.entries, b.conv.subList.length + b.conv.macroList.length ≤ e.id ∧ e.id < hd.slots := by
+    intro e he
+    rw [hment] at he
+    obtain ⟨p, hp, hpe⟩ := List.mem_filterMap.mp he
+    cases hbk : bank[p.1 % (mdsFile_bankMask + 1)]? with
+    | none => simp [hbk] at hpe
+    | some dat =>
+      simp only [hbk, Option.map_some, Option.some.injEq] at hpe
+      subst hpe
+      have hlt : p.2 < b.conv.usedData.length := val_lt_of_mem hinv.maps.used (hperm.mem_iff.mp hp)
+      show b.conv.subList.length + b.conv.macroList.length ≤ entryId b.conv.subList.length b.conv.macroList.length p.1 p.2 % 2147483648 ∧ entryId b.conv.subList.length b.conv.macroList.length p.1 p.2 % 2147483648 < hd.slots
+      rw [entryId_mod (by omega), hslots]; omega
+  -- data slots
+  have hdata : ∀ i, i < b.conv.usedData.length → DataRes b bank mf hd (b.conv.subList.length + b.conv.macroList.length + i) := by
+    intro i hi
+    obtain ⟨mapped, hkey⟩ := exists_key_of_lt hinv.maps.used (k := i) hi
+    obtain ⟨dat, hbk, _⟩ := entryTrees_mem _ _ _ _ _ hts (mapped, i) (hperm.mem_iff.mpr hkey)
+    have he : MdsRead.entryOfP b.conv.subList.length b.conv.macroList.length mapped i dat ∈ mf.entries := by
+      rw [hment]; exact MdsRead.entriesOf_mem (p := (mapped, i)) (hperm.mem_iff.mpr hkey) hbk
+    have hid : (MdsRead.entryOfP b.conv.subList.length b.conv.macroList.length mapped i dat).id = b.conv.subList.length + b.conv.macroList.length + i := entryId_mod (by omega)
+    obtain ⟨q1, q2⟩ := MdsRead.resolve_data mf hd _ (by rw [hid, hslots]; omega) he hnd
+    rw [hid] at q1 q2
+    refine ⟨mapped, dat, by omega, ?_, hbk, ?_, q2, ?_⟩
+    · rw [Nat.add_sub_cancel_left]; exact hkey
+    · rw [Nat.add_sub_cancel_left]; exact q1
+    · rw [hmseq, hbase]; exact hdat _ (by omega) (by omega)
+  -- subroutine slots
+  have hsubres : ∀ (k : Nat) (hk : k < b.conv.subList.length), ∃ off stream,
+      convertTrackChk b.conv.subList.length b.conv.macroList.length b.conv.subList[k] = .ok stream ∧ MdsRead.At b.seq (4 + 4 * b.trackList.length + off) stream ∧
+      stream.length < 65536 ∧ MdsResolve.streamPos mf hd k = some (4 + 4 * b.trackList.length + off) ∧
+      ∃ rest, MdsResolve.resolve mf hd (.stream k) = some (stream ++ rest) := by
+    intro k hk
+    obtain ⟨off, stream, q1, q2, q3, q4, q5⟩ := hsub k hk
+    have hfrag := hfr b.conv.subList[k] (List.mem_append_right _ (List.getElem_mem _))
+    obtain ⟨body, t, hbt, _, ht, _⟩ := hfrag
+    have hne : stream ≠ [] := by
+      have := (convertTrackChk_fits q2).2
+      rw [hbt] at this
+      exact MdsRead.convertTrack_ne b.conv.subList.length b.conv.macroList.length body t ht this
+    have hsl : stream.length < 65536 := hlen stream (List.mem_append_right _ (List.mem_of_getElem? q5))
+    obtain ⟨p1, p2⟩ := MdsRead.resolve_stream mf hd k off stream (by rw [hslots]; omega)
+      (fun e he hc => by have := (hentry e he).1; omega) (by rw [hmseq, hbase]; exact q1) (by rw [hmseq, hbase]; exact q3) hne
+      (by rw [hbase, hslots]; simp only [hdrSize] at q4; omega)
+    rw [hbase] at p1
+    exact ⟨off, stream, q2, q3, hsl, p1, p2⟩
+  have hall_of : ∀ l ∈ b.trackList.map (·.2) ++ b.conv.subList, ∀ ev ∈ l, AllEv b.conv (b.trackList.map (·.2)) ev := by
+    intro l hl ev hev
+    rcases List.mem_append.mp hl with hl | hl
+    · exact Or.inr (Or.inr ⟨l, hl, hev⟩)
+    · exact Or.inl ⟨l, hl, hev⟩
+  refine ⟨mf, hd, hparse, hmseq, by rw [hmf], by rw [hmf], hheader, hbase, by rw [hhd], hslots, ?_, ?_, hnd, hentry, ?_, ?_, ?_⟩
+  · -- channel ids
+    rw [hhd, ← htx.1]
+    simp only [List.map_map]
+    have := range_getD (b.trackList.map (·.1)) hidlt
+    simp only [List.length_map] at this
+    exact this
+  · rw [hhd]; simp [List.map_map, Function.comp_def]
+  · -- channel tracks
+    intro i hi
+    obtain ⟨off, stream, _, _, q3, q4, q5, q6⟩ := htr i hi
+    have hfrag := hfr b.trackList[i].2 (List.mem_append_left _ (List.mem_map.mpr ⟨b.trackList[i], List.getElem_mem _, rfl⟩))
+    have hsl : stream.length < 65536 := hlen stream (List.mem_append_left _ (List.mem_of_getElem? q5))
+    have hpos : trackPos b i = 4 + 4 * b.trackList.length + off := by rw [q6, htpi]; simp [hdrSize]
+    have hle : stream.length ≤ b.seq.length := by
+      obtain ⟨pre, post, hq, _⟩ := q4; rw [hq]; simp; omega
+    rw [hpos, hmseq]
+    exact ⟨_, (C09_reader_sees_operands_partial b.conv.subList.length b.conv.macroList.length _ hfrag q3 hsl b.seq _ q4 false _ (by omega)).1⟩
+  · -- subroutine slots
+    intro k hk drum
+    obtain ⟨off, stream, q2, q3, hsl, p1, _⟩ := hsubres k hk
+    have hfrag := hfr b.conv.subList[k] (List.mem_append_right _ (List.getElem_mem _))
+    have hle : stream.length ≤ b.seq.length := by
+      obtain ⟨pre, post, hq, _⟩ := q3; rw [hq]; simp; omega
+    refine ⟨4 + 4 * b.trackList.length + off, 4 + 4 * b.trackList.length + off + stream.length, p1, ?_⟩
+    rw [hmseq]
+    exact (C09_reader_sees_operands_partial b.conv.subList.length b.conv.macroList.length _ hfrag q2 hsl b.seq _ q3 drum _ (by omega)).1
+  · -- every decoded index operand resolves
+    intro l hl drum o ho
+    obtain ⟨ev, hev, hcase⟩ := MdsRead.mem_opsOf ho
+    have hfit := C09_index_fits_byte hasm l hl ev hev
+    have hsc := hinv.scopedEv ev (hall_of l hl ev hev)
+    unfold ScopedC Scoped at hsc
+    rcases hcase with ⟨rfl, ht⟩ | ⟨rfl, ht⟩ | ⟨rfl, ht⟩ | ⟨rfl, ht⟩ | ⟨rfl, ht⟩ | ⟨_, rfl⟩ | ⟨_, _, _, rfl | rfl⟩
+    · -- PAT
+      rw [hfit.1 ht]
+      have hk := hsc.1 ht
+      obtain ⟨key, hkey⟩ := exists_key_of_lt hinv.maps.sub (by rw [hinv.maps.subLen]; exact hk)
+      obtain ⟨evs, he, hnm⟩ := hinv.namedS _ hkey (by simp [Pend.hs])
+      obtain ⟨off, stream, q2, _, _, _, rest, p2⟩ := hsubres ev.arg hk
+      have : evs = b.conv.subList[ev.arg] := by
+        rw [List.getElem?_eq_getElem hk] at he; exact (Option.some.inj he).symm
+      subst this
+      exact ⟨key, _, stream, rest, hkey, he, hnm, q2, p2⟩
+    · -- INS
+      rw [hfit.2.1 (.inl ht)]
+      exact hdata ev.arg (hsc.2.1 (.inl ht))
+    · -- PCM
+      rw [hfit.2.1 (.inr ht)]
+      exact hdata ev.arg (hsc.2.1 (.inr ht))
+    · -- PEG
+      by_cases ha : ev.arg = 0
+      · simp only [ha, ne_eq, not_true_eq_false, if_false]; exact .inl rfl
+      · simp only [ha, ne_eq, not_false_eq_true, if_true]
+        rw [hfit.2.2.1 ht ha]
+        right
+        have hk := hsc.2.2.1 ht
+        have := hdata (ev.arg - 1) (by omega)
+        rw [show b.conv.subList.length + b.conv.macroList.length + (ev.arg - 1) = b.conv.subList.length + b.conv.macroList.length + ev.arg - 1 by omega] at this
+        exact this
+    · -- MTAB
+      by_cases ha : ev.arg = 0
+      · simp only [ha, ne_eq, not_true_eq_false, if_false]; exact .inl rfl
+      · simp only [ha, ne_eq, not_false_eq_true, if_true]
+        rw [hfit.2.2.2 ht ha]
+        right
+        have hk := hsc.2.2.2 ht
+        have hk' : ev.arg - 1 < b.conv.macroList.length := by omega
+        obtain ⟨key, hkey⟩ := exists_key_of_lt hinv.maps.mac (by rw [hinv.maps.macLen]; exact hk')
+        obtain ⟨evs, he, hnm⟩ := hinv.namedM _ hkey (by simp [Pend.hm])
+        obtain ⟨off, stream, q1, q2, q3, q4⟩ := hmac (ev.arg - 1) hk'
+        have : evs = b.conv.macroList[ev.arg - 1] := by
+          rw [List.getElem?_eq_getElem hk'] at he; exact (Option.some.inj he).symm
+        subst this
+        have e1 : ev.arg + b.conv.subList.length - 1 - b.conv.subList.length = ev.arg - 1 := by omega
+        have e2 : ev.arg + b.conv.subList.length - 1 = b.conv.subList.length + (ev.arg - 1) := by omega
+        refine ⟨key, _, stream, by rw [e1]; exact hkey, by rw [e1]; exact he, hnm, q2, fun hne => ?_⟩
+        rw [e2]
+        exact (MdsRead.resolve_stream mf hd (b.conv.subList.length + (ev.arg - 1)) off stream (by rw [hslots]; omega)
+          (fun e he hc => by have := (hentry e he).1; omega) (by rw [hmseq, hbase]; exact q1) (by rw [hmseq, hbase]; exact q3) hne
+          (by rw [hbase, hslots]; simp only [hdrSize] at q4; omega)).2
+    · trivial
+    · trivial
+    · trivial
+
+
+/-- the decidable residual hypotheses of `C09_full_partial` (`Spec/MdsFrag.fullPartialHyps`, evaluated on every
+accepted generated song by the C09 judge, `Driver/MdsFile`) are those of the theorem -/
+theorem fullPartialHyps_sound {song : Song} {b : Built} (h : fullPartialHyps song b = true) :
+    (song.tracks.map (·.1)).Pairwise (· < ·) ∧ 0 < b.trackList.length ∧
+    (∀ l ∈ b.trackList.map (·.2) ++ b.conv.subList, MdsRead.Frag l) ∧ (∀ s ∈ b.trackStreams ++ b.subStreams, s.length < 65536) := by
+  simp only [fullPartialHyps, Bool.and_eq_true, decide_eq_true_eq, List.all_eq_true] at h
+  obtain ⟨⟨⟨h1, h2⟩, h4⟩, h5⟩ := h
+  exact ⟨h1, h2, fun l hl => MdsRead.fragB_sound (h4 l hl), h5⟩
+
+/-- the decidable residual hypotheses hold of a concrete assembled export with a subroutine, a
+data item and a channel track (the `construct` hypothesis itself cannot be evaluated by the kernel —
+see the note at the end of the file — and is met by every accepted generated song of the
+correspondence runs, on each of which the judge also evaluates `fullPartialHyps`) -/
+example : ((assemble { subList := [[⟨mds_FINISH, 0⟩]], subMap := [(400, 0)], usedData := [(1, 0)] }
+      [(0, [⟨mds_PAT, 0⟩, ⟨mds_INS, 0⟩, ⟨mds_NOTE + 36, 24⟩, ⟨mds_FINISH, 0⟩])] (some "5")).toOption.map
+        (fullPartialHyps { tracks := [(0, []), (400, [])] })) = some true := by decide
+
+theorem drumArg_nat {k : Nat} (h : k < 32768) : drumArg (k : Int) = k := by
+  unfold drumArg wrap16; split <;> omega
+
+/-- `nothing_unused`, at the level of what the reader decodes.  Every subroutine, macro-track and
+data slot of an export is an operand in `opsOf` of a channel-track or subroutine event list —
+which, for lists in the fragment, is what `decodeStream` reads from the bytes
+(`C09_full_partial`) — EXCEPT slots that the witnessing song reference can reach only through
+an event that emits no operand byte:
+ (E1) an index-bearing event of a MACRO-TRACK list (`convert_macro_track` drops INS / PCM / PEG /
+      PAT / MTAB and notes' opcodes: the entry is registered and emitted, no byte names it);
+ (E2) a drum-mode note of length 0 (`convert_track` emits nothing for it);
+ (E3) a drum-mode note inside a drum routine: the routine index is the operand of `DMFINISH`,
+      which the driver reads as a note number.
+The entries of the exceptions are named by the song (`C09_nothing_unused`: every entry is the
+target of an event the writer made of a song event) but unreachable from the sequence bytes. -/
+theorem C09_nothing_unused_bytes {song : Song} {d : DataInfo} (hpc : PlatformClean d) {vol : Option String} {b : Built}
+    (h : construct song d vol = .ok b) :
+    (∀ k, k < b.conv.subList.length →
+      (∃ l ∈ b.trackList.map (·.2) ++ b.conv.subList, ∀ drum : Bool,
+        MdsResolve.Op.pat k ∈ MdsRead.opsOf b.conv.subList.length b.conv.macroList.length l drum) ∨
+      (∃ l ∈ b.trackList.map (·.2) ++ b.conv.subList, ∀ drum : Bool,
+        MdsResolve.Op.drumNote k ∈ MdsRead.opsOf b.conv.subList.length b.conv.macroList.length l drum ∨
+        MdsResolve.Op.note k ∈ MdsRead.opsOf b.conv.subList.length b.conv.macroList.length l drum) ∨
+      (∃ l ∈ b.conv.macroList, ∃ ev ∈ l, (ev.type = mds_PAT ∧ ev.arg = k) ∨ DrumRef ev k) ∨
+      (∃ l ∈ b.trackList.map (·.2) ++ b.conv.subList, ∃ ev ∈ l, ev.type = mds_NOTE + k ∧ ev.arg = 0) ∨
+      (∃ l ∈ b.trackList.map (·.2) ++ b.conv.subList, ∃ ev ∈ l, ev.type = mds_DMFINISH ∧ ev.arg = k)) ∧
+    (∀ k, k < b.conv.macroList.length →
+      (∃ l ∈ b.trackList.map (·.2) ++ b.conv.subList, ∀ drum : Bool,
+        MdsResolve.Op.mtab (k + 1 + b.conv.subList.length) ∈ MdsRead.opsOf b.conv.subList.length b.conv.macroList.length l drum) ∨
+      (∃ l ∈ b.conv.macroList, ∃ ev ∈ l, ev.type = mds_MTAB ∧ ev.arg = k + 1)) ∧
+    (∀ i, i < b.conv.usedData.length →
+      (∃ l ∈ b.trackList.map (·.2) ++ b.conv.subList, ∀ drum : Bool,
+        MdsResolve.Op.ins (b.conv.subList.length + b.conv.macroList.length + i) ∈ MdsRead.opsOf b.conv.subList.length b.conv.macroList.length l drum ∨
+        MdsResolve.Op.pcm (b.conv.subList.length + b.conv.macroList.length + i) ∈ MdsRead.opsOf b.conv.subList.length b.conv.macroList.length l drum ∨
+        MdsResolve.Op.peg (b.conv.subList.length + b.conv.macroList.length + i + 1) ∈ MdsRead.opsOf b.conv.subList.length b.conv.macroList.length l drum) ∨
+      (∃ l ∈ b.conv.macroList, ∃ ev ∈ l, ((ev.type = mds_INS ∨ ev.type = mds_PCM) ∧ ev.arg = i) ∨ (ev.type = mds_PEG ∧ ev.arg = i + 1))) := by
+  obtain ⟨_, _, hasm⟩ := construct_inv hpc h
+  obtain ⟨_, _, _, _, _, _, hsz, _⟩ := assemble_ok hasm
+  unfold hdrSize at hsz
+  obtain ⟨hS, hM, hD⟩ := C09_nothing_unused hpc h
+  -- where the witnessing event lies
+  have hwhere : ∀ ev, AllEv b.conv (b.trackList.map (·.2)) ev →
+      (∃ l ∈ b.trackList.map (·.2) ++ b.conv.subList, ev ∈ l) ∨ (∃ l ∈ b.conv.macroList, ev ∈ l) := by
+    rintro ev (⟨l, hl, he⟩ | ⟨l, hl, he⟩ | ⟨l, hl, he⟩)
+    · exact .inl ⟨l, List.mem_append_right _ hl, he⟩
+    · exact .inr ⟨l, hl, he⟩
+    · exact .inl ⟨l, List.mem_append_left _ hl, he⟩
+  refine ⟨fun k hk => ?_, fun k hk => ?_, fun i hi => ?_⟩
+  · obtain ⟨key, ev, _, hall, hr⟩ := hS k hk
+    have hda : drumArg (k : Int) = k := drumArg_nat (by omega)
+    rcases hwhere ev hall with ⟨l, hl, he⟩ | ⟨l, hl, he⟩
+    · have hfit := C09_index_fits_byte hasm l hl ev he
+      rcases hr with ⟨_, ht, ha⟩ | ⟨_, hdr⟩
+      · left
+        refine ⟨l, hl, fun drum => ?_⟩
+        have := (MdsRead.opsOf_records (nS := b.conv.subList.length) (nM := b.conv.macroList.length) he drum).1 ht
+        rw [hfit.1 ht, ha] at this; exact this
+      · rcases hdr with ⟨hty, hlt⟩ | ⟨hty, ha⟩
+        · rw [hda] at hty hlt
+          have hty' : ev.type = mds_NOTE + k := by simpa using hty
+          by_cases ha0 : ev.arg = 0
+          · exact .inr (.inr (.inr (.inl ⟨l, hl, ev, he, hty', ha0⟩)))
+          · right; left
+            refine ⟨l, hl, fun drum => ?_⟩
+            have h1 : mds_NOTE ≤ ev.type := by rw [hty']; omega
+            have h2 : ev.type < mds_SLR := by rw [hty']; simp only [mds_NOTE, mds_SLR]; omega
+            have := MdsRead.opsOf_records_note (nS := b.conv.subList.length) (nM := b.conv.macroList.length) he h1 h2 ha0 drum
+            rw [hty', Nat.add_sub_cancel_left] at this; exact this
+        · refine .inr (.inr (.inr (.inr ⟨l, hl, ev, he, hty, ?_⟩)))
+          rw [ha, hda, u16_nat]; omega
+    · refine .inr (.inr (.inl ⟨l, hl, ev, he, ?_⟩))
+      rcases hr with ⟨_, ht, ha⟩ | ⟨_, hdr⟩
+      · exact .inl ⟨ht, ha⟩
+      · exact .inr hdr
+  · obtain ⟨ev, hall, ht, ha⟩ := hM k hk
+    rcases hwhere ev hall with ⟨l, hl, he⟩ | ⟨l, hl, he⟩
+    · left
+      refine ⟨l, hl, fun drum => ?_⟩
+      have hfit := C09_index_fits_byte hasm l hl ev he
+      have := (MdsRead.opsOf_records (nS := b.conv.subList.length) (nM := b.conv.macroList.length) he drum).2.2.2.2 ht
+      have hne : ev.arg ≠ 0 := by omega
+      simp only [hne, ne_eq, not_false_eq_true, if_true] at this
+      rw [hfit.2.2.2 ht hne, ha] at this; exact this
+    · exact .inr ⟨l, hl, ev, he, ht, ha⟩
+  · obtain ⟨ev, hall, hr⟩ := hD i hi
+    rcases hwhere ev hall with ⟨l, hl, he⟩ | ⟨l, hl, he⟩
+    · left
+      refine ⟨l, hl, fun drum => ?_⟩
+      have hfit := C09_index_fits_byte hasm l hl ev he
+      have hrec := MdsRead.opsOf_records (nS := b.conv.subList.length) (nM := b.conv.macroList.length) he drum
+      rcases hr with ⟨ht | ht, ha⟩ | ⟨ht, ha⟩
+      · left
+        have := hrec.2.1 ht
+        rw [hfit.2.1 (.inl ht), ha] at this; exact this
+      · right; left
+        have := hrec.2.2.1 ht
+        rw [hfit.2.1 (.inr ht), ha] at this; exact this
+      · right; right
+        have := hrec.2.2.2.1 ht
+        have hne : ev.arg ≠ 0 := by omega
+        simp only [hne, ne_eq, not_false_eq_true, if_true] at this
+        rw [hfit.2.2.1 ht hne, ha] at this; exact this
+    · exact .inr ⟨l, hl, ev, he, hr⟩
+
 
 /-! ### non-vacuity: a conversion state with one subroutine, one data item and one channel track
 assembles, and the container is produced -/
